@@ -226,6 +226,10 @@ func judgeRun(ep entryPoint, hostile []byte, max int64) (sig, detail string) {
 		if herr == nil && int64(h.Len) > max && src.Off > n {
 			return "payload-read-despite-MaxFrameSize:" + ep.name, fmt.Sprintf("announced %d > limit %d but source consumed %d bytes, header is %d", h.Len, max, src.Off, n)
 		}
+		if herr == nil && int64(h.Len) > max && h.Len < 1<<63 && strings.Contains(ep.name, "nocheck") && err != wsutil.ErrFrameTooLarge {
+			// with the RFC header check switched off the size limit is the only reason to refuse this frame
+			return "size-limit-refusal-reported-as-something-else:" + ep.name, fmt.Sprintf("announced %d > limit %d: err=%v", h.Len, max, err)
+		}
 	}
 	return "", ""
 }
